@@ -46,7 +46,7 @@ def pick_pool(rng, master, rare, lo, hi, rare_p=0.15):
     return pool
 
 
-def uri_probes(uri_pool, extra_tails=("1", "x/y", ""), alphabet=None, replaced=True):
+def uri_probes(uri_pool, extra_tails=("1", "x/y", ""), alphabet=None, replaced=True, shapes_for=0):
     """Probe strings around every URI prefix of a pool (deterministic, sorted, unique)."""
     out = []
     seen = set()
@@ -67,7 +67,7 @@ def uri_probes(uri_pool, extra_tails=("1", "x/y", ""), alphabet=None, replaced=T
             add(p + c)
         for t in extra_tails:
             add(p + t)
-        if alphabet is None and p:
+        if (alphabet is None or uri_pool.index(p) % max(1, len(uri_pool) // max(1, shapes_for)) == 0 and shapes_for) and p:
             add(p + p)             # the prefix occurs again inside the identifier
             add(p + "1" + p)
             add(p + " ")           # white space is part of the identifier / breaks the match in front
@@ -75,6 +75,10 @@ def uri_probes(uri_pool, extra_tails=("1", "x/y", ""), alphabet=None, replaced=T
             add(p.swapcase() + "1")
             add(p + "%20?x=1&y=2#frag")
             add(p + "L" * 300)     # a long identifier
+            tails = ("1\n2", "1\n", "\n", "\r\n1", "\t1", "\x001", "a\u2028b", "x\x85", "<1>", "1 2")
+            i = uri_pool.index(p)
+            for t in (tails[i % 10], tails[(i + 3) % 10], tails[(i + 7) % 10]):
+                add(p + t)          # line breaks, controls, brackets inside the identifier (three per prefix)
     add("zzz")
     add("\U0001d11e\u0301 ")
     return out
